@@ -116,6 +116,25 @@ func checkC16(c *core.Ctx) {
 		c.Nontrivial("builtin:" + sym + ":" + dg.Notation() + ":" + k)
 	})
 
+	// ---- many built-ins in one document, in shuffled orders with repetitions (one process resolves siblings
+	// of the same parent one after the other)
+	c.Stream("sequence", c.N(60, 1000), func(i int, r *rand.Rand) {
+		var p model.Piece
+		n := 20 + r.Intn(60)
+		var recent []string
+		for j := 0; j < n; j++ {
+			sym := syms[r.Intn(len(syms))]
+			if len(recent) > 2 && r.Intn(3) == 0 {
+				sym = recent[r.Intn(len(recent))] // come back to a chord used before
+			}
+			recent = append(recent, sym)
+			p.Inst = append(p.Inst, model.Instance{Chord: &model.ChordSpec{Deg: degs[r.Intn(len(degs))], Symbol: sym}, Values: one()})
+		}
+		if judgePitches(c, "sequence", i, p, model.Flags{Key: keys[r.Intn(len(keys))]}, writeOpts{}) {
+			c.Nontrivial(fmt.Sprintf("sequence%d", i))
+		}
+	})
+
 	// ---- name and display interchangeable in info chord describe
 	var names []string
 	for n := range theory.ChordNames {
@@ -497,7 +516,7 @@ func userForestCase(c *core.Ctx, i int, r *rand.Rand) {
 
 // brokenForest generates a dictionary with one injected inconsistency.
 func brokenForest(i int, r *rand.Rand) (forest, string, bool) {
-	kinds := []string{"dangling-attr", "dangling-extends", "cycle1", "cycle2", "cycle3", "cycle4", "cycle5", "unnamed-chord", "unnamed-attr", "tail1", "tail2", "tail3"}
+	kinds := []string{"dangling-attr", "dangling-extends", "cycle1", "cycle2", "cycle3", "cycle4", "cycle5", "unnamed-chord", "unnamed-attr", "tail1", "tail2", "tail3", "shadowed-dangling-extends", "shadowed-dangling-attr", "unnamed-chord-with-display"}
 	kind := kinds[i%len(kinds)]
 	used := (i/len(kinds))%2 == 0
 	f := genForest(r, "b")
@@ -514,6 +533,20 @@ func brokenForest(i int, r *rand.Rand) (forest, string, bool) {
 	case "unnamed-attr":
 		f.attrs = append(f.attrs, userAttr{Name: "\x00", Degree: "3"})
 		broken.Attrs = []string{f.attrs[0].Name}
+	case "unnamed-chord-with-display":
+		broken.Name = "\x00"
+		broken.Display = "zunnamed"
+		broken.Attrs = []string{f.attrs[0].Name}
+	case "shadowed-dangling-extends", "shadowed-dangling-attr":
+		// the broken entry stays reachable through its display symbol only: a later entry reuses its name
+		broken.Display = "zbrokenold"
+		if kind == "shadowed-dangling-extends" {
+			broken.Extends = "NoSuchChord"
+			broken.Attrs = []string{f.attrs[0].Name}
+		} else {
+			broken.Attrs = []string{"NoSuchAttribute"}
+		}
+		f.chords = append(f.chords, userChord{Name: "Zbroken", Display: "zbrokennew", Attrs: []string{f.attrs[0].Name}})
 	case "tail1", "tail2", "tail3":
 		// the broken chord is not part of the cycle, it only leads into one
 		n := int(kind[4] - '0')
@@ -541,8 +574,11 @@ func brokenForest(i int, r *rand.Rand) (forest, string, bool) {
 			broken.Attrs = []string{f.attrs[0].Name}
 		}
 	}
-	// insert the broken chord at a random position
+	// insert the broken chord at a random position (before its shadowing twin, if there is one)
 	pos := r.Intn(len(f.chords) + 1)
+	if strings.HasPrefix(kind, "shadowed") {
+		pos = r.Intn(len(f.chords))
+	}
 	f.chords = append(f.chords[:pos], append([]userChord{broken}, f.chords[pos:]...)...)
 	return f, kind, used
 }
@@ -554,6 +590,12 @@ func brokenDictCase(c *core.Ctx, i int, r *rand.Rand) {
 	sym := "m7"
 	if used && kind != "unnamed-chord" {
 		sym = "Zbroken"
+	}
+	if used && strings.HasPrefix(kind, "shadowed") {
+		sym = "zbrokenold"
+	}
+	if used && kind == "unnamed-chord-with-display" {
+		sym = "zunnamed"
 	}
 	doc := model.Piece{Inst: []model.Instance{{Chord: &model.ChordSpec{Deg: theory.Interval{N: 1, Q: theory.Perfect}, Symbol: sym}, Values: one()}}}.YAML(model.YAMLStyle{})
 	cmds := [][]string{
